@@ -75,6 +75,17 @@ func (t *Tr) instr(in ssa.Instruction) {
 		t.call(in, in.Common(), in)
 	case *ssa.Go:
 		t.vc.note("go statement: spawned function is not executed here (no interleavings)")
+		// the spawned function's preconditions must hold when it is spawned
+		if ct, key := t.findContract(in.Common()); ct != nil {
+			var args []ssa.Value
+			if in.Common().IsInvoke() {
+				args = append(args, in.Common().Value)
+			}
+			args = append(args, in.Common().Args...)
+			t.preOnly = true
+			t.applyContract(ct, key, args, nil, in.Pos(), in.Common())
+			t.preOnly = false
+		}
 	case *ssa.Defer:
 		t.defers = append(t.defers, deferRec{in, in.Block()})
 	case *ssa.RunDefers:
@@ -288,6 +299,13 @@ func (t *Tr) unop(in *ssa.UnOp) {
 		}
 		v := t.load(t.cur, a)
 		x := t.setVal(in, v.S)
+		if a.Heap != "" && t.cur.gen == 0 {
+			if _, written := t.cur.h[a.Heap]; !written {
+				// the location has not been written since entry: what it holds existed at entry
+				t.assumeTypedAt(x, in.Type(), t.next(t.entry))
+				return
+			}
+		}
 		t.assumeTyped(x, in.Type())
 	case token.NOT:
 		t.setVal(in, mkNot(t.val(in.X).S))
@@ -477,7 +495,9 @@ func (t *Tr) ret(in *ssa.Return) {
 		return
 	}
 	// reachability witness: the assumptions made so far do not exclude this return
-	t.vc.Items = append(t.vc.Items, Item{Kind: itOblig, Text: t.curReach, Name: fmt.Sprintf("cover/return#%d", t.retCount), Expect: "sat", Src: "return is reachable under the assumptions (non-vacuity)"})
+	if withCover {
+		t.vc.Items = append(t.vc.Items, Item{Kind: itOblig, Text: t.curReach, Name: fmt.Sprintf("cover/return#%d", t.retCount), Expect: "sat", Src: "return is reachable under the assumptions (non-vacuity)"})
+	}
 	env := t.envAt(nil)
 	env.cur = t.cur
 	env.old = t.entry
@@ -496,15 +516,11 @@ func (t *Tr) ret(in *ssa.Return) {
 		}
 	}
 	for i, en := range t.c.Ensures {
-		s, err := env.evalBool(en.E)
+		s, err := env.evalClause(en.E)
 		if err != nil {
 			efail("%s:%d: ensures#%d: %v", en.File, en.Line, i, err)
 		}
-		f := s
-		if t.curReach != "true" {
-			f = fmt.Sprintf("(=> %s %s)", t.curReach, s)
-		}
-		t.posts[i] = append(t.posts[i], f)
+		t.posts[i] = append(t.posts[i], Cl{t.guard(s.Q), t.guard(s.U)})
 	}
 	t.frameAtReturn()
 	t.retCount++
@@ -852,19 +868,19 @@ func (t *Tr) chanInv(chTy types.Type, v Term, isSend bool, pos token.Pos, guard 
 		return false
 	}
 	env := &Env{t: t, vars: map[string]Val{"v": {T: v, Ty: ch.Elem()}}, cur: t.cur, pkg: ci.Pkg}
-	s, err := env.evalBool(ci.E)
+	s, err := env.evalClause(ci.E)
 	if err != nil {
 		efail("%s:%d: chaninv: %v", ci.File, ci.Line, err)
 	}
 	if isSend {
 		i := t.kindCount["chaninv"]
 		t.kindCount["chaninv"] = i + 1
-		t.check(fmt.Sprintf("chaninv/send#%d", i), s, "value sent satisfies the channel invariant "+ci.Src, pos)
+		t.checkCl(fmt.Sprintf("chaninv/send#%d", i), s, "value sent satisfies the channel invariant "+ci.Src, pos)
 	} else {
 		if guard != "" {
-			s = fmt.Sprintf("(=> %s %s)", guard, s)
+			s = Cl{fmt.Sprintf("(=> %s %s)", guard, s.Q), fmt.Sprintf("(=> %s %s)", guard, s.U)}
 		}
-		t.assume(s)
+		t.assumeCl(s, false)
 		t.vc.Trusted["channel invariant on "+key+" is stable between send and receive (heap-dependent parts)"] = true
 	}
 	return true
